@@ -63,7 +63,68 @@ def r_two_pass(cx):
             if "dyn grid::Grid" not in full and "Arc<" not in full and _float_array_domain(f, lp) is None:
                 continue
             sites.append((name, f, bb, t, lp))
-    cx.count("R-TWO-PASS", "search_sites", len(sites))
+    csites = _two_pass_closure_sites(cx)
+    cx.count("R-TWO-PASS", "search_sites", len(sites) + len(csites))
+    for n, (name, f, bb, g, gb) in enumerate(csites):
+        # `for margin in [..] { if let Some(hit) = grids.iter().find_map(|grid| grid.at(coord, margin)) { return .. } }`
+        k = [s[0] for s in csites[:n]].count(name)
+        t = f.term(bb)
+        where = cx.where(t["span"])
+        key = "%s/find%d" % (name, k)
+        full = t.get("callee_full", "")
+        outer = f.innermost_loop(bb)
+        dom = _float_array_domain(f, outer) if outer is not None else None
+        is_grids = full.startswith("<std::slice::Iter<") and "grid::Grid" in full.split(" as ", 1)[0]
+        cx.ob("R-TWO-PASS", key + "/nesting", is_grids and dom is not None,
+              "%s: the margins are the outer loop, the search over the grid list the inner one" % name if is_grids and dom is not None else
+              "%s: the grid search is not a search over the grid list inside a loop over the margins (searching %s, margins %s)" % (
+                  name, full[:60], dom), where)
+        cx.ob("R-TWO-PASS", key + "/margins", dom == [0.0, 0.5],
+              "%s: margins tried are 0 then 0.5" % name if dom == [0.0, 0.5] else
+              "%s: margins tried are %s, documented: 0 (inside) then 0.5 (half-cell margin)" % (name, dom), where)
+        cx.ob("R-TWO-PASS", key + "/list-order", is_grids,
+              "%s: grids are tried in list order" % name if is_grids else
+              "%s: grids are not tried in list order (%s)" % (name, full[:70]), where)
+        # the margin handed to at() is a capture of the closure, and what is captured is the outer induction value
+        margin_ok = False
+        a = g.arg_terms(gb)
+        cap = _capture_index(a[2]) if len(a) > 2 else None
+        clos = [x for x in f.arg_terms(bb) if x[0] == "agg" and isinstance(x[1], tuple) and x[1][0] == "closure"]
+        if cap is not None and clos and cap < len(clos[0][2]) and outer is not None:
+            v = clos[0][2][cap]
+            if v[0] == "refplace" and not v[3]:
+                v = f.local_value(v[2], f.end_point(bb))
+            margin_ok = mir.strip_refs(v) in pertuple.induction_terms(f, outer)
+        cx.ob("R-TWO-PASS", key + "/margin-arg", margin_ok,
+              "%s: Grid::at is called with the margin of the current pass" % name if margin_ok else
+              "%s: Grid::at is not called with the margin of the current pass" % name, where)
+        # a hit leaves both loops
+        first_hit = False
+        nxt = t.get("target")
+        if nxt is not None and outer is not None:
+            for b2 in sorted(outer.body):
+                sw = f.term(b2)
+                if sw["k"] != "switch":
+                    continue
+                d = f.operand(sw["discr"], f.end_point(b2))
+                src = None
+                if d[0] == "discr":
+                    src = mir.strip_refs(d[1])
+                elif d[0] == "call" and str(d[1]).split("::")[-1] in ("is_some", "is_none") and d[2]:
+                    src = mir.strip_refs(d[2][0])
+                if not (src is not None and src[0] == "call" and src[3] == bb):
+                    continue
+                if d[0] == "discr":
+                    some_succ = dict((v, tg) for v, tg in sw["targets"]).get(1, sw["otherwise"] if sw["targets"] and sw["targets"][0][0] == 0 else None)
+                elif str(d[1]).endswith("is_some"):
+                    some_succ = sw["otherwise"]
+                else:
+                    some_succ = sw["targets"][0][1] if sw["targets"] else None
+                if some_succ is not None:
+                    first_hit = outer.header not in f.reach_from([some_succ], avoid=[])
+        cx.ob("R-TWO-PASS", key + "/first-hit", first_hit,
+              "%s: the first grid that delivers a value ends the search" % name if first_hit else
+              "%s: a hit does not end the search over grids and margins" % name, where)
     for n, (name, f, bb, t, lp) in enumerate(sites):
         k = [s[0] for s in sites[:n]].count(name)
         where = cx.where(t["span"])
@@ -129,6 +190,40 @@ def r_two_pass(cx):
               "%s: a hit does not end the search over grids and margins" % name, where)
 
 
+def _capture_index(t):
+    """k when the term is the k-th capture of a closure (read through the environment argument)"""
+    t = mir.strip_refs(t)
+    while t[0] == "proj" and t[2] == "deref":
+        t = mir.strip_refs(t[1])
+    if t[0] == "proj" and isinstance(t[2], tuple) and t[2][0] == "f":
+        b = mir.strip_refs(t[1])
+        while b[0] == "proj" and b[2] == "deref":
+            b = mir.strip_refs(b[1])
+        if b == ("arg", 1):
+            return t[2][1]
+    return None
+
+
+def _two_pass_closure_sites(cx):
+    """searches written as `grids.iter().find_map(|grid| grid.at(coord, margin))`: (function, f, block of the find_map
+    call, closure body, block of the Grid::at call in the closure)"""
+    out = []
+    for name in cx.f.fn_names():
+        if not name.startswith(("grid::", "inner_op::")) or "{closure" in name:
+            continue
+        f = cx.f.fn(name)
+        for bb, t in f.calls():
+            if (f.callee(t) or "").rsplit("::", 1)[-1] != "find_map":
+                continue
+            for x in f.arg_terms(bb):
+                if x[0] == "agg" and isinstance(x[1], tuple) and x[1][0] == "closure" and cx.f.has_fn(x[1][1]):
+                    g = cx.f.fn(x[1][1])
+                    for gb, gt in g.calls():
+                        if (gt.get("callee") or "") == "grid::Grid::at" and g.innermost_loop(gb) is None:
+                            out.append((name, f, bb, g, gb))
+    return out
+
+
 @rule("R-GRID-SIGN", ["C08", "C01"])
 def r_grid_sign(cx):
     reg = cx.registry()
@@ -147,20 +242,31 @@ def r_grid_sign(cx):
             for pt in pertuple.per_tuple_loops(f):
                 inp = _input_term(pt)
                 for bb, m in sorted(pt.writes):
-                    v = mir.strip_refs(f._deref(f.arg_terms(bb)[2], f.end_point(bb)))
-                    base, ups = upd_chain(v)
-                    if mir.strip_refs(base) != inp:
-                        continue
-                    for path, val in ups:
-                        if not (path and len(path) == 1 and path[0][0] == "elem" and len(path[0]) == 2):
+                    v0 = mir.strip_refs(f._deref(f.arg_terms(bb)[2], f.end_point(bb)))
+                    # the value written may be the join of the geoid and the datum shift branch
+                    arms, work = [], [(v0, 0)]
+                    while work:
+                        x, dep = work.pop()
+                        x = mir.strip_refs(x)
+                        if x[0] == "phi" and dep < 4 and isinstance(x[1], tuple) and isinstance(x[1][0], int) and \
+                                not any(lp.header == x[1][0] for lp in f.loops()):
+                            work.extend((y, dep + 1) for y in x[2])
+                        else:
+                            arms.append(x)
+                    for v in arms:
+                        base, ups = upd_chain(v)
+                        if mir.strip_refs(base) != inp:
                             continue
-                        k = path[0][1]
-                        if val[0] == "bin" and val[1] in ("Add", "Sub") and val[2] == ("proj", inp, ("elem", k)):
-                            g = val[3]
-                            gk = g[2][1] if (g[0] == "proj" and isinstance(g[2], tuple) and g[2][0] == "elem" and len(g[2]) == 2) else None
-                            from_grid = "grids_at" in mir.show(g, maxd=8)
-                            if from_grid:
-                                res.setdefault(role, set()).add((k, val[1], gk))
+                        for path, val in ups:
+                            if not (path and len(path) == 1 and path[0][0] == "elem" and len(path[0]) == 2):
+                                continue
+                            k = path[0][1]
+                            if val[0] == "bin" and val[1] in ("Add", "Sub") and val[2] == ("proj", inp, ("elem", k)):
+                                g = val[3]
+                                gk = g[2][1] if (g[0] == "proj" and isinstance(g[2], tuple) and g[2][0] == "elem" and len(g[2]) == 2) else None
+                                from_grid = "grids_at" in mir.show(g, maxd=8)
+                                if from_grid:
+                                    res.setdefault(role, set()).add((k, val[1], gk))
         want_fwd = {(2, "Sub", 0), (0, "Add", 0), (1, "Add", 1)}
         okf = res.get("fwd") == want_fwd
         cx.ob("R-GRID-SIGN", "gridshift/fwd", okf,
@@ -305,7 +411,7 @@ def r_multimap(cx):
                           "sub-grids registered earlier under the same parent become unreachable" % name,
                           cx.where(t["span"]))
         pushes = [bb for bb, t in f.calls() if (f.callee(t) or "").endswith("Vec::<T, A>::push") and
-                  "or_insert" in mir.show(f.arg_terms(bb)[0], maxd=6)]
+                  any(x in mir.show(f.arg_terms(bb)[0], maxd=6) for x in ("or_insert", "Entry::<", "or_default"))]
         for k, bb in enumerate(pushes):
             n += 1
             cx.ob("R-MULTIMAP", "%s/extend%d" % (name, k), True,
